@@ -502,6 +502,21 @@ def renumber(ts, rng, perm=None):
     return tables.tree_sequence(), newid
 
 
+def renumber_all(ts, rng):
+    """Permute ALL node ids (samples too: valid input whose samples are not ids 0..n-1).
+    Returns (ts2, newid) with newid[old] = new."""
+    N = ts.num_nodes
+    newid = rng.permutation(N)
+    order = np.argsort(newid)
+    tables = ts.dump_tables()
+    tables.subset(order.astype(np.int32), record_provenance=False,
+                  reorder_populations=False, remove_unreferenced=False)
+    tables.sort()
+    tables.build_index()
+    tables.compute_mutation_parents()
+    return tables.tree_sequence(), newid
+
+
 def retime(ts, rng, mode=None):
     """Change non-sample node times arbitrarily but consistently with the DAG order."""
     mode = mode or str(rng.choice(["rank", "scale", "jitter", "depth"]))
